@@ -4,6 +4,7 @@ import (
 	"encoding/json"
 	"fmt"
 	"math"
+	"strconv"
 	"strings"
 
 	"github.com/ChrisTrenkamp/xsel"
@@ -192,6 +193,33 @@ func (b *Built) valueAgrees(want Val, got xsel.Result) (bool, string) {
 		json.Unmarshal(want.V, &cs)
 		if str(cs) != string(g) {
 			return false, fmt.Sprintf("expected %q got %q", str(cs), string(g))
+		}
+		return true, ""
+	case "numstr":
+		// the string of a number beyond the digit-exact range: decimal notation without exponent that
+		// reads back to the same double; integers without a decimal point
+		g, ok := got.(xsel.String)
+		if !ok {
+			return false, fmt.Sprintf("expected a string, got %T", got)
+		}
+		var n Num
+		json.Unmarshal(want.V, &n)
+		f, _ := n.Float()
+		s := string(g)
+		if strings.ContainsAny(s, "eE+") {
+			return false, fmt.Sprintf("string(%v) = %q uses an exponent", f, s)
+		}
+		for _, r := range strings.TrimPrefix(s, "-") {
+			if (r < '0' || r > '9') && r != '.' {
+				return false, fmt.Sprintf("string(%v) = %q is not a decimal numeral", f, s)
+			}
+		}
+		back, err := strconv.ParseFloat(s, 64)
+		if err != nil || !sameFloat(back, f) {
+			return false, fmt.Sprintf("string(%v) = %q does not read back to the same double", f, s)
+		}
+		if f == math.Trunc(f) && strings.Contains(s, ".") {
+			return false, fmt.Sprintf("string(%v) = %q: an integer is printed with a decimal point", f, s)
 		}
 		return true, ""
 	case "bool":
